@@ -209,6 +209,13 @@ class IntervalTier(textgrid_tier.TextgridTier):
 
     def deleteEntry(self, entry: Interval) -> None:
         """Removes an entry from the entries"""
+        # Entries compare equal within a tolerance; if several entries are
+        # that close to each other, remove the one that was asked for
+        for i, candidate in enumerate(self._entries):
+            if isinstance(entry, Interval) and tuple(candidate) == tuple(entry):
+                self._entries.pop(i)
+                return
+
         self._entries.pop(self._entries.index(entry))
 
     def difference(self, tier: "IntervalTier") -> "IntervalTier":
